@@ -423,11 +423,7 @@ func c19GenNumeric(r *gen.R, name string, num int32) *c19Field {
 			p **string
 		}{{"gt", &rules.Gt}, {"gte", &rules.Gte}, {"lt", &rules.Lt}, {"lte", &rules.Lte}} {
 			if has(b.n) {
-				wasWidened := fd.widened
 				tok, _, w, f := pick()
-				if b.n == "gt" || b.n == "lt" {
-					fd.widened = wasWidened // exclusive bounds are not published at all
-				}
 				*b.p = c19S(tok)
 				wire[b.n] = w
 				around(f)
@@ -813,8 +809,12 @@ func c19Request(idx int, fields []*c19Field) *ir.Request {
 
 // c19Class names the defect class that explains a disagreement between the real schema and the
 // rules on this field ("" = none applies: the disagreement is unexplained).
-func c19Class(fd *c19Field, jsonFormat, spec, real bool) string {
+func c19Class(fd *c19Field, realSchema any, jsonFormat, spec, real bool) string {
 	numeric := c19IsNumeric(fd.Kind) && (fd.Card == "single" || fd.Card == "optional")
+	if c19BoolBound(realSchema) {
+		// fixed by de811c7; listed as fixed, so seeing it again is a violation
+		return "exclusive_bound_published_as_false"
+	}
 	if numeric {
 		read := c19Getter(fd.Kind) == fd.Group
 		if !read {
@@ -828,8 +828,6 @@ func c19Class(fd *c19Field, jsonFormat, spec, real bool) string {
 			switch {
 			case stringTyped && fd.hasConstIn:
 				return "int64_string_const_in_numbers"
-			case fd.hasExclusive:
-				return "exclusive_bound_published_as_false"
 			case fd.widened:
 				return "float_bound_widened"
 			}
@@ -1155,7 +1153,7 @@ func C19(c *Ctx) error {
 				res.Count("oracle:agree")
 				continue
 			}
-			key := c19Class(fd, j.m.Param == "format=json", spec, realValid)
+			key := c19Class(fd, j.real, j.m.Param == "format=json", spec, realValid)
 			what := fmt.Sprintf("%s %s field (group %s, int64 NUMBER=%v) rules %s: value %s: rules accept=%v, published schema %s accepts=%v",
 				fd.Card, fd.Kind, fd.Group, fd.I64N, c19JSON(fd.Rules), c19JSON(c19Plain(po["json"])), spec, c19JSON(c19Plain(j.real)), realValid)
 			if key == "" {
